@@ -119,6 +119,13 @@ def selector_forms(tier):
             out.append((S.cx(S.cp((ns, '*'), ('fn', 'not', (S.cx(S.cp(None, ('pc', pc))),))), '>', S.cp(('x', 'f'))),))
         out.append((S.cx(S.cp((ns, 'e')), '>', S.cp(('x', 'f'))),))
         out.append((S.cx(S.cp((ns, 'e')), '~', S.cp((ns, 'e'), ('attr', None, 'k', None, None, None))),))
+    cls, hk, zz = S.cx(S.cp(None, ('class', 'c'))), S.cx(S.cp(None, ('attr', None, 'k', None, None, None))), S.cx(S.cp(None, ('class', 'zz')))
+    for outer in (('x', 'e'), ('*', '*'), ('x', '*'), (None, 'e')):
+        for L in ((cls, hk), (hk, cls), (zz, cls), (cls, zz), (cls, hk, zz)):
+            out.append((S.cx(S.cp(outer, ('fn', 'not', L))),))
+            out.append((S.cx(S.cp(outer, ('fn', 'is', L))),))
+            out.append((S.cx(S.cp(outer, ('nth', 'child', 1, 0, L, None))),))
+            out.append((S.cx(S.cp(outer, ('has', tuple(('>', x) for x in L)))),))
     tl = [S.cp(None, ('attr', None, 'k', None, None, None)), S.cp(None, ('class', 'c')), S.cp(None, ('attr', 'x', 'k', None, None, None)),
           S.cp(None, ('fn', 'not', (S.cx(S.cp(('x', 'e'))),)))]
     typed = [S.cp(('x', 'e')), S.cp((None, 'f')), S.cp(('*', 'e')), S.cp((None, 'zz'))]
